@@ -160,7 +160,8 @@ func (c *Ctx) mustBeforeReturn(rule string, fn *ssa.Function, start Point, summ 
 // precedes: no path from the function entry reaches an instruction of `later`
 // without passing an instruction of `earlier`.
 func (c *Ctx) precedes(fn *ssa.Function, earlier, later map[ssa.Instruction]bool, blocked func(*ssa.BasicBlock, int) bool) (ssa.Instruction, []*ssa.BasicBlock) {
-	q := &PathQ{P: c.P, Barrier: func(in ssa.Instruction) bool { return earlier[in] }, EdgeBlocked: blocked}
+	q := c.pq(fn)
+	q.Barrier, q.EdgeBlocked = func(in ssa.Instruction) bool { return earlier[in] }, blocked
 	return q.Reach(entryOf(fn), func(in ssa.Instruction) bool { return later[in] && !earlier[in] })
 }
 
@@ -196,7 +197,24 @@ func (c *Ctx) checkOrderL(rule string, fn *ssa.Function, aDesc string, a map[ssa
 			calls = append(calls, ci)
 		}
 	}
-	addLoopEvents(c.P, fn, a2, edgeSet(emptinessGuardEdgesFor(fn, calls)))
+	// loops are looked for in every function of the region that holds an A site
+	done := map[*ssa.Function]bool{}
+	for _, g := range append([]*ssa.Function{fn}, c.regionOf(fn)...) {
+		if done[g] {
+			continue
+		}
+		done[g] = true
+		var own []ssa.CallInstruction
+		for _, ci := range calls {
+			if ci.Parent() == g {
+				own = append(own, ci)
+			}
+		}
+		if len(own) == 0 && g != fn {
+			continue
+		}
+		addLoopEvents(c.P, g, a2, edgeSet(emptinessGuardEdgesFor(g, own)))
+	}
 	return c.checkOrderG(rule, fn, aDesc, a2, bDesc, b, false)
 }
 
@@ -896,4 +914,21 @@ func isConstructionBoundary(f *ssa.Function) bool {
 func isPlainCallback(t types.Type) bool {
 	sig, ok := t.Underlying().(*types.Signature)
 	return ok && sig.Params().Len() == 0 && sig.Results().Len() == 0
+}
+
+// sitesMustReach: the call sites of fn that call a target function directly, or call something (a helper, a method, a
+// local function literal) every path of which reaches one — "extract helper" must not hide a required call
+func (c *Ctx) sitesMustReach(fn *ssa.Function, target FnPred) []ssa.CallInstruction {
+	sm := newSumm(c.P, target)
+	sm.AllowEmptyGuards, sm.LoopsRunOnce = false, false
+	var out []ssa.CallInstruction
+	for _, s := range callsIn(fn) {
+		if _, isGo := s.(*ssa.Go); isGo {
+			continue
+		}
+		if sm.siteMust(s, nil, 0) {
+			out = append(out, s)
+		}
+	}
+	return out
 }
